@@ -125,21 +125,31 @@ def Enc.startAttr (e : Enc) : AttrVal :=
   | .str => .str (toString e.base)
   | .omitted => .absent
 
+/-- the cells of the face-node variable before any storage choice: node index + base, `none` = missing -/
+def encCells (e : Enc) (w : Nat) (faces : List (List Nat)) : Table :=
+  faces.map fun f => pad w (f.map fun (v : Nat) => (v : Int) + e.base)
+
+/-- the storage of those cells under the fill representation of `e` -/
+def encPayload (e : Enc) (w : Nat) (faces : List (List Nat)) : Payload :=
+  match e.fill with
+  | .nan => .float (encCells e w faces)
+  | .attr F => .int ((encCells e w faces).map (·.map (·.getD F))) (some F)
+  | .none => .int (faces.map fun f => f.map fun (v : Nat) => (v : Int) + e.base) Option.none
+
+/-- the same values stored with the other dimension first -/
+def Payload.transpose (m : Nat) : Payload → Payload
+  | .float rows => .float (Mesh.transpose m rows)
+  | .int rows F => .int (Mesh.transpose m rows) F
+
 /-- how a mesh (faces = node index lists) is written to a `face_node_connectivity`
 variable of width `w` under encoding `e` -/
 def encode (e : Enc) (fdim mdim : String) (w : Nat) (faces : List (List Nat)) : Stored :=
-  let cells : List (List (Option Int)) := faces.map fun f => pad w (f.map fun (v : Nat) => (v : Int) + e.base)
-  let payload : Payload := match e.fill with
-    | .nan => .float cells
-    | .attr F => .int (cells.map (·.map (·.getD F))) (some F)
-    | .none => .int (faces.map fun f => f.map fun (v : Nat) => (v : Int) + e.base) Option.none
   if e.transposed then
     { dims := (mdim, fdim), shape := (w, faces.length), startIndex := e.startAttr,
-      payload := match payload with
-        | .float rows => .float (transpose w rows)
-        | .int rows F => .int (transpose w rows) F }
+      payload := (encPayload e w faces).transpose w }
   else
-    { dims := (fdim, mdim), shape := (faces.length, w), startIndex := e.startAttr, payload := payload }
+    { dims := (fdim, mdim), shape := (faces.length, w), startIndex := e.startAttr,
+      payload := encPayload e w faces }
 
 /-! ## `_face_and_node_pair_iter` -/
 
@@ -257,7 +267,10 @@ dimension exists and its size if the dataset has that dimension, and for each op
 table the supplied one if it passed its validity test (`none` otherwise), decoded by
 `_to_index_array` (which may itself raise, hence `Except`) -/
 structure TopoIn where
-  faceNode : Table
+  /-- `face_node_array` (or the exception `_to_index_array` raises for it) -/
+  faceNode : Except Err Table
+  /-- `face_count`, `max_node_count`: sizes of the face and max-node dimensions -/
+  nfaces : Nat
   width : Nat
   hasEdgeDim : Bool
   edgeDimSize : Option Nat
@@ -268,27 +281,34 @@ structure TopoIn where
   /-- a proposed numbering of the derived edges (the order the real code happened to choose);
   used only if it is a renumbering of the model's own derived edge list -/
   numbering : Option (List Pair) := none
+  /-- the exception `sensible_fill_value` raises (it needs `node_count`, hence the node
+  coordinate variables); the `make_*` functions evaluate it before anything else -/
+  fillValueErr : Option Err := none
   deriving Repr
 
 namespace TopoIn
 
-def faces (t : TopoIn) : List (List Int) := facesOf t.faceNode
-
-/-- `_face_and_node_pair_iter` raises IndexError on a face without nodes (`node_indexes[0]`) -/
-def facesOk (t : TopoIn) : Bool := t.faces.all (· ≠ [])
+/-- the faces `_face_and_node_pair_iter` walks over; it raises IndexError on a face without
+nodes (`node_indexes[0]`) -/
+def faces (t : TopoIn) : Except Err (List (List Int)) :=
+  match t.faceNode with
+  | .error e => .error e
+  | .ok fn => if (facesOf fn).all (· ≠ []) then .ok (facesOf fn) else .error .index
 
 /-- the derived edge list in the numbering in use -/
-def derivedEdges (t : TopoIn) : List Pair :=
-  match t.numbering with
-  | some w => if isRenumbering w (makeEdgeNode t.faces) then w else makeEdgeNode t.faces
-  | none => makeEdgeNode t.faces
+def derivedEdges (numbering : Option (List Pair)) (faces : List (List Int)) : List Pair :=
+  match numbering with
+  | some w => if isRenumbering w (makeEdgeNode faces) then w else makeEdgeNode faces
+  | none => makeEdgeNode faces
 
 /-- `edge_node_array` -/
 def edgeNodeArray (t : TopoIn) : Except Err Table :=
   if !t.hasEdgeDim then .error .noEdgeDim
   else match t.edgeNode with
     | some tab => tab
-    | none => if t.facesOk then .ok (t.derivedEdges.map pairRow) else .error .index
+    | none => match t.faces with
+      | .error e => .error e
+      | .ok faces => .ok ((derivedEdges t.numbering faces).map pairRow)
 
 /-- `edge_count` -/
 def edgeCount (t : TopoIn) : Except Err Nat :=
@@ -302,12 +322,15 @@ def faceEdgeArray (t : TopoIn) : Except Err Table :=
   match t.faceEdge with
   | some tab => tab
   | none =>
+    if let some e := t.fillValueErr then .error e else
     match t.edgeNodeArray with
     | .error e => .error e
     | .ok en =>
       match pairsOfTable en with
       | none => .error .unmodelled
-      | some pairs => if t.facesOk then makeFaceEdge t.width pairs t.faces else .error .index
+      | some pairs => match t.faces with
+        | .error e => .error e
+        | .ok faces => makeFaceEdge t.width pairs faces
 
 /-- `edge_face_array` -/
 def edgeFaceArray (t : TopoIn) : Except Err Table :=
@@ -317,6 +340,7 @@ def edgeFaceArray (t : TopoIn) : Except Err Table :=
     match t.edgeCount with
     | .error e => .error e
     | .ok n =>
+      if let some e := t.fillValueErr then .error e else
       match t.faceEdgeArray with
       | .error e => .error e
       | .ok fe => makeEdgeFace n (fe.map compress)
@@ -326,9 +350,10 @@ def faceFaceArray (t : TopoIn) : Except Err Table :=
   match t.faceFace with
   | some tab => tab
   | none =>
+    if let some e := t.fillValueErr then .error e else
     match t.edgeFaceArray with
     | .error e => .error e
-    | .ok ef => makeFaceFace t.faceNode.length t.width ef
+    | .ok ef => makeFaceFace t.nfaces t.width ef
 
 end TopoIn
 
